@@ -10,7 +10,7 @@ PROP = dict(
                  "per-revision config snapshots are bookkeeping: the one of the old current revision may be (re)written with the unchanged configuration",
                  "known findings F-C10-1/F-C10-2 are compared modulo exactly their difference and counted (extra.known_*_points); engine 'witness' reproduces each from a fixed minimal case"],
     engines=[
-        gt("faults", "overlord/snapstate", "TestVerifC10", dict(checks=12, shards=4, timeout=2400), dict(checks=60, shards=16, timeout=3 * 3600)),
+        gt("faults", "overlord/snapstate", "TestVerifC10", dict(checks=12, shards=4, timeout=2400), dict(checks=50, shards=16, timeout=3 * 3600)),
         gt("witness", "overlord/snapstate", "TestVerifC10Witness", dict(shards=1), dict(shards=1), rapid=False),
     ],
 )
